@@ -462,6 +462,9 @@ fn judge_success(w: &mut World, rep: &mut Report, p: &Pending, name: &str, s3: &
 	if tx.fee() < min_fee {
 		bad.push(("fee-below-minimum".into(), format!("fee {} < minimum {}", tx.fee(), min_fee)));
 	}
+	if tx.shifted_fee() < tx.accept_fee() {
+		bad.push(("fee-below-minimum(shifted)".into(), format!("fee {} >> shift {} counts as {} < minimum {}", tx.fee(), tx.body.fee_shift(), tx.shifted_fee(), tx.accept_fee())));
+	}
 	if tx.fee() != p.fee {
 		bad.push(("fee-not-agreed".into(), format!("kernel fee {} != fee agreed at initiation {}", tx.fee(), p.fee)));
 	}
@@ -1051,6 +1054,149 @@ fn hostile_invoice_with_the_id_of_a_finalized_one(w: &mut World, rep: &mut Repor
 	cleanup(w);
 }
 
+/// Invoice flow with a payer that runs other software: the invoicer finalizes whatever half the payer hands back, and
+/// the payer chooses the fee. The half is built by hand with the public `Slate` functions over one of wallet 0's
+/// coins (what a counterparty with its own funds can do), with a fee field whose low 40 bits and *shift* (bits
+/// 40..43; a node's pool divides the fee by 2^shift before comparing it with the minimum for the weight) vary.
+/// Oracle, on every reply the invoicer finalizes: the returned transaction validates, its kernel verifies, its fee as
+/// a node counts it (`shifted_fee`) meets the minimum for its weight (`accept_fee`), it is the stored one, and the
+/// harness node mines it; a refused reply leaves the invoicer's records as they were. The first variant (minimum
+/// fee, no shift) is the control that shows the hand-built half is one the invoicer accepts.
+fn hostile_invoice_payer(w: &mut World, rep: &mut Report, rng: &mut Rng, prop: &str) {
+	fund(w);
+	let min_fee = tx_fee(1, 2, 1);
+	let k = 1 + rng.below(15);
+	let k2 = 1 + rng.below(3);
+	let variants: Vec<(String, u64, u64, bool)> = vec![
+		("control: minimum fee, no shift".into(), 0, min_fee, true),
+		(format!("minimum fee in the low bits, shift {}", k), k, min_fee, false),
+		("minimum fee in the low bits, shift 1".into(), 1, min_fee, false),
+		("one below the minimum, no shift".into(), 0, min_fee - 1, false),
+		(format!("minimum << {} with shift {} (counts as the minimum)", k2, k2), k2, min_fee << k2, true),
+		(format!("(minimum << {}) - 1 with shift {} (counts as one unit below the minimum)", k2, k2), k2, (min_fee << k2) - 1, false),
+	];
+	let mut used: BTreeSet<String> = BTreeSet::new();
+	for (name, shift, fee, meets) in variants {
+		let case = json!({"job": prop, "scenario": "invoice paid by a hand-built payer half", "variant": name, "fee_shift": shift, "fee_low_bits": fee.to_string(), "minimum": min_fee});
+		let _ = w.wallets[0].refresh();
+		let height = w.node.chain().head().map(|h| h.height).unwrap_or(0);
+		let kc0 = w.wallets[0].keychain();
+		let amount = 1_000_000_000 + rng.below(3_000_000_000);
+		let input = w.wallets[0].all_outputs().unwrap_or_default().into_iter().find(|o| o.eligible_to_spend(height, 1) && o.value > amount + fee + 1_000_000 && !used.contains(&o.key_id.to_hex()));
+		let input = match input {
+			Some(i) => i,
+			None => {
+				rep.inconclusive("hostile invoice payer: no coin to build the payer's half with");
+				let _ = w.mine(Some(0), true);
+				continue;
+			}
+		};
+		used.insert(input.key_id.to_hex());
+		let built = (|| -> Result<(Slate, Slate), libwallet::Error> {
+			let i1 = w.wallets[1].issue_invoice(IssueInvoiceTxArgs { amount, ..Default::default() })?;
+			let mut i2 = i1.clone();
+			let change = input.value - amount - fee;
+			let change_key = ExtKeychain::derive_key_id(3, 0, 0, 3_000_000 + (rng.next() as u32 % 1_000_000), 0);
+			i2.tx = Some(Slate::empty_transaction());
+			i2.fee_fields = FeeFields::new(shift, fee).map_err(|e| libwallet::Error::GenericError(format!("{:?}", e)))?;
+			let elems = vec![if input.is_coinbase { build::coinbase_input(input.value, input.key_id.clone()) } else { build::input(input.value, input.key_id.clone()) }, build::output(change, change_key.clone())];
+			i2.add_transaction_elements(&kc0, &ProofBuilder::new(&kc0), elems)?;
+			let mut ctx = Context::new(kc0.secp(), &input.root_key_id, false, false);
+			ctx.add_input(&input.key_id, &input.mmr_index, input.value);
+			ctx.add_output(&change_key, &None, change);
+			i2.fill_round_1(&kc0, &mut ctx)?;
+			ctx.initial_sec_key = ctx.sec_key.clone();
+			i2.fill_round_2(&kc0, &ctx.sec_key, &ctx.sec_nonce)?;
+			i2.adjust_offset(&kc0, &ctx)?;
+			i2.tx_or_err_mut()?.offset = i2.offset.clone();
+			i2.amount = 0;
+			i2.state = SlateState::Invoice2;
+			Ok((i1, i2))
+		})();
+		let (i1, i2) = match built {
+			Ok(x) => x,
+			Err(e) => {
+				rep.inconclusive(&format!("hostile invoice payer: the payer's half could not be built ({}): {:?}", name, e));
+				cleanup(w);
+				continue;
+			}
+		};
+		rep.eval();
+		let before = w.wallets[1].projection().map(|x| hash64(&(x.outs, x.txs))).unwrap_or(0);
+		let r = catch(|| w.wallets[1].foreign_finalize(&i2));
+		match r {
+			Err((loc, msg)) => rep.violation(&format!("{}|panic|{}", prop, loc), &format!("finalize_tx panicked on a hand-built invoice reply ({}): {}", name, msg), case.clone()),
+			Ok(Err(e)) => {
+				rep.count(&format!("hostile-invoice-payer:refused:{}", if meets { "fee-that-meets-the-minimum" } else { "fee-below-the-minimum" }));
+				rep.distinct(&("hostile-invoice-payer", shift, meets, "refused"));
+				if name.starts_with("control") {
+					rep.inconclusive(&format!("hostile invoice payer: the control reply (minimum fee, no shift) was refused: {:?}", e));
+				}
+				let after = w.wallets[1].projection().map(|x| hash64(&(x.outs, x.txs))).unwrap_or(0);
+				if after != before {
+					rep.violation(&format!("{}|failed-finalize-changed-state|hand-built-invoice-reply", prop), &format!("finalize_tx refused the reply ({}: {}) but changed the invoicer's records", name, err_kind(&e)), case.clone());
+				}
+			}
+			Ok(Ok(s3)) => {
+				rep.count(&format!("hostile-invoice-payer:accepted:{}", if meets { "fee-that-meets-the-minimum" } else { "FEE-BELOW-THE-MINIMUM" }));
+				rep.distinct(&("hostile-invoice-payer", shift, meets, "accepted"));
+				let mut bad: Vec<(String, String)> = vec![];
+				match s3.tx.as_ref() {
+					None => bad.push(("finalize-ok-without-tx".into(), "finalize returned Ok without a transaction".into())),
+					Some(tx) => {
+						if let Err(e) = tx.validate(Weighting::AsTransaction) {
+							bad.push(("tx-invalid".into(), format!("returned transaction does not validate: {:?}", e)));
+						}
+						if tx.kernels().len() != 1 || tx.kernels()[0].verify().is_err() {
+							bad.push(("kernel-signature".into(), "kernel signature does not verify".into()));
+						}
+						if tx.shifted_fee() < tx.accept_fee() {
+							bad.push(("fee-below-minimum".into(), format!("fee field {:?}: fee {} >> shift {} counts as {} against the minimum {} for weight {} (a node's pool answers LowFeeTransaction)", s3.fee_fields, tx.fee(), tx.body.fee_shift(), tx.shifted_fee(), tx.accept_fee(), tx.weight())));
+						}
+						match w.wallets[1].get_stored_tx(None, Some(&i1.id)) {
+							Ok(Some(st)) => {
+								let a = gser::ser_vec(tx, gser::ProtocolVersion(1)).unwrap_or_default();
+								let b = st.tx.as_ref().map(|t| gser::ser_vec(t, gser::ProtocolVersion(1)).unwrap_or_default()).unwrap_or_default();
+								if a != b {
+									bad.push(("stored-tx-differs".into(), "the stored transaction is not byte-for-byte the returned one".into()));
+								}
+							}
+							other => bad.push(("stored-tx-missing".into(), format!("get_stored_tx after finalize: {:?}", other.map(|o| o.is_some())))),
+						}
+						if bad.is_empty() {
+							match w.wallets[1].post(tx).map_err(|e| format!("{:?}", e)).and_then(|_| w.mine(None, true)) {
+								Ok(mined) => {
+									if !mined.iter().any(|t| t.kernels()[0].excess == tx.kernels()[0].excess) {
+										bad.push(("not-mined".into(), "the node accepted the transaction into the pool but it was not minable".into()));
+									}
+								}
+								Err(e) => bad.push(("chain-rejects".into(), format!("the chain rejects the finalized transaction: {}", e))),
+							}
+						}
+					}
+				}
+				for (kind, what) in bad.iter() {
+					rep.violation(&format!("{}|{}|hand-built-invoice-reply", prop, kind), &format!("[Invoice, payer's half built by hand, {}] {}", name, what), case.clone());
+				}
+				if bad.is_empty() {
+					rep.count("success-exact:Invoice(hand-built payer half)");
+				}
+			}
+		}
+		let _ = w.wallets[1].refresh();
+		let _ = w.wallets[0].refresh();
+		// leave nothing pending on the invoicer (a refused or fee-starved payment is given up)
+		if let Ok(txs) = w.wallets[1].all_txs() {
+			for t in txs {
+				if !t.confirmed && t.tx_slate_id == Some(i1.id) {
+					let _ = w.wallets[1].cancel(Some(t.id), None);
+				}
+			}
+		}
+	}
+	cleanup(w);
+}
+
 /// The command line's order again (reserve with the reply, then finalize), with a reply whose public excess was
 /// replaced by the excess of a kernel that is already on chain. Finalization must fail - and the pending send must
 /// still be cancellable afterwards, also after the wallet has refreshed (send without change output: such sends
@@ -1327,6 +1473,9 @@ pub fn run(a: &Args, prop: &'static str) {
 		}
 		if a.shard % 3 == 2 {
 			hostile_invoice_with_the_id_of_a_finalized_one(&mut w, &mut rep, &mut rng, prop);
+		}
+		if a.shard % 2 == 0 || a.thorough() {
+			hostile_invoice_payer(&mut w, &mut rep, &mut rng, prop);
 		}
 	}
 	if proof_focus {
